@@ -14,6 +14,9 @@ use crate::gm::*;
 use crate::prng::Rng;
 use std::collections::{BTreeMap, BTreeSet};
 
+/// cap on distinct Boolean (@skip/@include) variables per operation, see `DocGen::bool_var`
+pub const MAX_BOOL_VARS: usize = 4;
+
 pub const BUILTIN_SCALARS: [&str; 5] = ["Int", "Float", "String", "Boolean", "ID"];
 
 #[derive(Clone, Debug)]
@@ -640,11 +643,13 @@ pub struct DocGen<'a> {
     frag_vars: BTreeMap<String, VarPool>,
     /// document-wide variable table so that the same name always has the same declared type
     global_vars: VarPool,
+    /// document-wide Boolean variables (capped, see `bool_var`)
+    global_bools: Vec<String>,
 }
 
 impl<'a> DocGen<'a> {
     pub fn new(schema: &'a SchemaModel, cfg: &'a GenCfg) -> Self {
-        DocGen { schema, cfg, frags: vec![], features: BTreeSet::new(), alias_counter: 0, frag_counter: 0, frag_vars: BTreeMap::new(), global_vars: VarPool::default() }
+        DocGen { schema, cfg, frags: vec![], features: BTreeSet::new(), alias_counter: 0, frag_counter: 0, frag_vars: BTreeMap::new(), global_vars: VarPool::default(), global_bools: vec![] }
     }
 
     fn fields_of(&self, parent: &str) -> Vec<FieldDef> {
@@ -678,12 +683,19 @@ impl<'a> DocGen<'a> {
     }
 
     fn bool_var(&mut self, rng: &mut Rng, pool: &mut VarPool) -> String {
-        let cands: Vec<String> = pool.vars.iter().filter(|v| strip_ty(&v.ty) == Ty::non_null(Ty::named("Boolean"))).map(|v| v.name.clone()).collect();
-        if !cands.is_empty() && rng.chance(2, 3) {
-            return cands[rng.below(cands.len())].clone();
+        // The operation type printer enumerates 2^n assignments of the n Boolean variables used by the
+        // @skip/@include directives of one selection set, fragments included (measured: 15 variables ≈ 80 s),
+        // so the number of distinct Boolean variables per DOCUMENT is capped to keep cases within ordinary limits.
+        if !self.global_bools.is_empty() && (self.global_bools.len() >= MAX_BOOL_VARS || rng.chance(2, 3)) {
+            let name = self.global_bools[rng.below(self.global_bools.len())].clone();
+            if !pool.vars.iter().any(|v| v.name == name) {
+                pool.vars.push(VarDef { name: name.clone(), pos: P::default(), ty: Ty::non_null(Ty::named("Boolean")), default: None, dirs: vec![] });
+            }
+            return name;
         }
         self.global_vars.counter += 1;
         let name = format!("b{}", self.global_vars.counter);
+        self.global_bools.push(name.clone());
         pool.vars.push(VarDef { name: name.clone(), pos: P::default(), ty: Ty::non_null(Ty::named("Boolean")), default: None, dirs: vec![] });
         name
     }
